@@ -591,63 +591,90 @@ func (c *Ctx) TPL(rule string) []report.Obligation {
 		fmt.Sprintf("%v", tableOps), fmt.Sprintf("the table handles %v, the grammar has %v", tableOps, want)))
 
 	// ---- TPL-2: defaults / replacements / messages are themselves interpolated
-	for _, id := range []string{"template.withDefaultWhenAbsence", "template.withDefaultWhenPresence", "template.withRequired"} {
-		f := c.P.Func(id)
-		if f == nil {
-			out = append(out, anchorViolation(rule+"-2", id))
-			continue
+	// decided per operator of the table (whatever the functions behind a row are called): the function of the row, or
+	// one it hands its substitution to and whose verdict it forwards
+	leaves := func(v ssa.Value) bool {
+		for _, use := range *v.Referrers() {
+			switch u := use.(type) {
+			case *ssa.Return:
+				return true
+			case *ssa.Store:
+				if fa, ok := u.Addr.(*ssa.FieldAddr); ok && fieldName(fa) == "Reason" {
+					return true
+				}
+			case *ssa.Phi:
+				return true
+			}
 		}
+		return false
+	}
+	inPkg := func(f *ssa.Function) func(com *ssa.CallCommon) bool {
+		return func(com *ssa.CallCommon) bool {
+			cal := com.StaticCallee()
+			return cal != nil && c.P.InModule(cal) && strings.HasPrefix(c.P.FuncID(cal), "template.") && cal != f
+		}
+	}
+	var interpolates func(f *ssa.Function, d int) bool
+	interpolates = func(f *ssa.Function, d int) bool {
 		// the split at the operator and the interpolation of what follows it: in the function itself, or in a
 		// helper of the package that returns the interpolated text (then result k of the helper is what is used)
-		leaves := func(v ssa.Value) bool {
-			for _, use := range *v.Referrers() {
-				switch u := use.(type) {
-				case *ssa.Return:
-					return true
-				case *ssa.Store:
-					if fa, ok := u.Addr.(*ssa.FieldAddr); ok && fieldName(fa) == "Reason" {
-						return true
-					}
-				case *ssa.Phi:
+		if res := c.interpolatedHalf(f); len(res) > 0 {
+			for _, v := range res {
+				if leaves(v) {
 					return true
 				}
 			}
 			return false
 		}
-		good := false
-		if res := c.interpolatedHalf(f); len(res) > 0 {
-			for _, v := range res {
-				if leaves(v) {
-					good = true
-				}
-			}
-		} else {
-			for _, cs := range callSites(f, func(com *ssa.CallCommon) bool {
-				cal := com.StaticCallee()
-				return cal != nil && c.P.InModule(cal) && strings.HasPrefix(c.P.FuncID(cal), "template.") && cal != f
-			}) {
-				h := cs.Common().StaticCallee()
-				// which results of the helper carry the interpolated text on every return that has one
-				idx := map[int]bool{}
-				for _, v := range c.interpolatedHalf(h) {
-					for _, use := range *v.Referrers() {
-						if r, ok := use.(*ssa.Return); ok {
-							for i, rv := range r.Results {
-								if rv == v {
-									idx[i] = true
-								}
+		for _, cs := range callSites(f, inPkg(f)) {
+			h := cs.Common().StaticCallee()
+			// which results of the helper carry the interpolated text on every return that has one
+			idx := map[int]bool{}
+			for _, v := range c.interpolatedHalf(h) {
+				for _, use := range *v.Referrers() {
+					if r, ok := use.(*ssa.Return); ok {
+						for i, rv := range r.Results {
+							if rv == v {
+								idx[i] = true
 							}
 						}
 					}
 				}
-				for _, r := range *cs.(ssa.Value).Referrers() {
-					if ex, ok := r.(*ssa.Extract); ok && idx[ex.Index] && leaves(ex) {
-						good = true
-					}
+			}
+			for _, r := range *cs.(ssa.Value).Referrers() {
+				if ex, ok := r.(*ssa.Extract); ok && idx[ex.Index] && leaves(ex) {
+					return true
 				}
 			}
 		}
-		out = append(out, verdict(good, rule+"-2", id+" :: second half interpolated", c.P.Pos(f.Pos()),
+		if d == 0 {
+			return false
+		}
+		// a row that forwards: `return withX(substitution, mapping, …)`
+		for _, cs := range callSites(f, inPkg(f)) {
+			forwarded := false
+			for _, r := range *cs.(ssa.Value).Referrers() {
+				if ex, ok := r.(*ssa.Extract); ok && ex.Index == 0 && leaves(ex) {
+					forwarded = true
+				}
+			}
+			if forwarded && interpolates(cs.Common().StaticCallee(), d-1) {
+				return true
+			}
+		}
+		return false
+	}
+	var rowIdx []int64
+	for i := range rows {
+		rowIdx = append(rowIdx, i)
+	}
+	sort.Slice(rowIdx, func(i, j int) bool { return rowIdx[i] < rowIdx[j] })
+	for _, i := range rowIdx {
+		r := rows[i]
+		if r.fn == nil {
+			continue
+		}
+		out = append(out, verdict(interpolates(r.fn, 2), rule+"-2", fmt.Sprintf("operator %q :: second half interpolated", r.op), c.P.Pos(r.fn.Pos()),
 			"the text after the operator goes through Substitute and that result is what is returned / reported", "the default / replacement / message is used without being interpolated"))
 	}
 
